@@ -159,6 +159,8 @@ def node_spec(pid, projection, monitor, text, partial, design_ref, explanation, 
     }
 
 
+PL_NOTE = " The abstract protocol P/Log.v (superposed on P/Election.v) is tied to the code by the executable acceptor P/LogAccept.v (proved sound: an accepted trace is a P execution), run on the P-level event trace of every simulated execution up to its first applied membership change: per API call the acting node's full (ghost, never compacted) log, commit index and the append acknowledgements it created; every change of a node's durable log; every released acknowledgement; plus the election-layer events. Each observed log change must be explained by a P rule (a leader appends, a follower adopts a prefix of its term's leader log, acknowledgements only for prefixes shared with that log and released only once durable, commits only by the quorum rule or up to a commit point, a log image becomes durable only after the hard state of its entries' terms)."
+
 SPECS["C16"] = node_spec(
     "C16", ["hard", "timers", "msgs.vote"], "prevote",
     "Props/C16.v: for every node state and every message, handling a pre-vote request leaves term and vote unchanged (all paths), and under the check-quorum lease a higher-term (pre)vote request that is not a forced transfer changes nothing and emits nothing. The node model is tied to src/raft.rs by the pointwise differential on term/vote/role/leader/timers and vote traffic of every simulated call.",
@@ -168,12 +170,37 @@ SPECS["C16"] = node_spec(
 
 SPECS["C03"] = node_spec(
     "C03", ["hard", "msgs.vote", "log"], "vote_restriction",
-    "Props/C03.v: for every node state and every vote or pre-vote request, a non-rejecting response is emitted only if the candidate's last (term, index) is at least the voter's own and the priority tie-break holds (the election restriction), proved on the node model for all states/messages; tied to src/raft.rs + src/raft_log.rs by the pointwise differential on vote handling.",
-    "leader completeness over executions (invariant LC) is not yet proved.",
+    "Props/C03.v: (node model, every state and every vote or pre-vote request) a non-rejecting response is emitted only if the candidate's last (term, index) is at least the voter's own and the priority tie-break holds; (abstract protocol P/Log.v, every execution with crashes, restarts, separate persistence of hard state and log, message loss/duplication/reordering) leader completeness: the log of every leader of a term >= T contains every commit point (T, k) of the leader of T with identical entries, every index any node reports committed is covered by such a commit point, and the grant rule enforces the election restriction against the log the candidate campaigned with." + PL_NOTE,
+    "fixed voter configuration within an execution, no single-node quorum; snapshots only as forgotten committed prefixes (the ghost full log).",
     "DESIGN.md section 7, C03",
-    "Theorems: Props/C03.v. Tie: pointwise differential, projection hard+log+vote traffic.")
+    "Theorems: Props/C03.v over M/Raft.v (per step) and P/Log.v (LogSafety.v). Ties: (A) pointwise differential, projection hard+log+vote traffic; (B) log-layer acceptor.",
+    acceptor="plog")
 
 P_NOTE = " The abstract protocol P/Election.v is tied to the code by the executable acceptor P/ElectionAccept.v (proved sound: an accepted trace is a P execution), run on the P-level event trace (per-call term/vote/role, hard-state hand-out and fsync, released vote requests/grants/leader traffic, crashes, restarts) of every simulated execution up to its first applied membership change."
+
+SPECS["C05"] = node_spec(
+    "C05", ["log"], "log_matching",
+    "Props/C05.v: in every execution of the abstract protocol, any two logs (volatile logs with unpersisted entries, durable logs, log images in flight to storage) of any two nodes that hold the same term at an index are identical up to that index; a node in the leader role only appends to its log; over every step other than its own crash a node's commit index does not decrease and its log is unchanged up to the old commit index, and the commit index stays within the log; a crash falls back exactly to the durable log." + PL_NOTE + " The message-level mechanics (prev-index/term check, conflict search, truncation) are theorems of the RaftLog model (C14) and are tied by the pointwise differential on the log section.",
+    "fixed voter configuration within an execution, no single-node quorum; compaction and snapshots appear only as forgetting a committed prefix (the acceptor observes the ghost full log, reconstructed from the committed history).",
+    "DESIGN.md section 7, C05",
+    "Theorems: Props/C05.v over P/Log.v (LogProofs.v). Ties: (B) log-layer acceptor; (A) pointwise differential on the log section.",
+    acceptor="plog")
+
+SPECS["C04"] = node_spec(
+    "C04", ["log", "progress"], "commit_rule",
+    "Props/C04.v: in the abstract protocol a commit point (T, k) is created only by a node in the leader role of term T whose entry k has term T and with a quorum (of every voter set, joint configurations included) in which every other member has a released acknowledgement >= k for term T - released only while its durable log covers it - and the leader counts itself only if its own durable log covers k; a node's commit index rises only by such a leader commit or up to an existing commit point its log agrees with; in every reachable state a non-zero commit index is covered by a commit point, and the entries of every commit point are in the durable log of a quorum." + PL_NOTE + " The arithmetic of the leader's commit computation (maybe_commit over the progress map, the own-term check, persisted-index accounting) is part of the node model and tied by the pointwise differential on log + progress.",
+    "fixed voter configuration within an execution, no single-node quorum; the clause about commit_term-guarded follower commits (this fork's MsgAppend/heartbeat commit_term field) is covered by the acceptor's LCommitF guard, not by a separate theorem.",
+    "DESIGN.md section 7, C04",
+    "Theorems: Props/C04.v over P/Log.v (LogSafety.v). Ties: (B) log-layer acceptor; (A) pointwise differential on log + progress.",
+    acceptor="plog")
+
+SPECS["C01"] = node_spec(
+    "C01", [], "sm_safety",
+    "Props/C01.v: in every execution of the abstract protocol, any two nodes agree on the entry at every index both report committed, and the entry a node reports committed at an index is the entry any node (the same node after crashes and restarts included) reports there in any later state; commit points are permanent and mutually consistent. The statement is shown FALSE (explicit execution, checked by computation) for the protocol without the guard that a log image becomes durable only after the hard state covering its entries' terms." + PL_NOTE + " Hand-off to the application (committed_entries of Ready, snapshots) is the subject of C07/C15 at node level.",
+    "fixed voter configuration within an execution, no single-node quorum; 'applied through a snapshot' is represented by the ghost full log (a snapshot only forgets a committed prefix).",
+    "DESIGN.md section 7, C01",
+    "Theorems: Props/C01.v over P/Log.v (LogSafety.v). Deciding tie: (B) log-layer acceptor on P-level traces (the pointwise differential is diagnostic only).",
+    acceptor="plog")
 
 SPECS["C02"] = node_spec(
     "C02", [], "election_safety",
